@@ -52,16 +52,16 @@ Definition mem_children (s : memfs) (p : path) : list name :=
 Inductive msec :=
 | MExists (p : path)               (* read : files.contains_key(path) *)
 | MScan (p : path)                 (* read : the scan of read_dir *)
-| MInsertDir (p : path)            (* write: entry()/insert of create_dir *)
+| MInsertDir (p : path)            (* write: parent check + entry()/insert of create_dir *)
 | MSetC (p : path) (t : time)      (* write: set_creation_time *)
 | MSetM (p : path) (t : time)      (* write: set_modification_time *)
 | MSetA (p : path) (t : time)      (* write: set_access_time *)
 | MGetReader (p : path)            (* read : get + ensure_file + content.clone() in open_file *)
-| MInsertFile (p : path)           (* write: check + insert of create_file *)
+| MInsertFile (p : path)           (* write: parent check + type check + insert of create_file *)
 | MAppendOpen (p : path)           (* write: get + ensure_file + clone in append_file *)
 | MMeta (p : path)                 (* read : metadata *)
 | MRemoveFile (p : path)           (* write: remove_file *)
-| MRemove (p : path)               (* write: the remove of remove_dir *)
+| MRemove (p : path)               (* write: listing + emptiness check + remove of remove_dir *)
 | MPublish (p : path) (buf : bytes). (* write: WritableFile::flush *)
 
 Definition msec_val (s : msec) : Type :=
@@ -84,6 +84,17 @@ Definition mem_update (s : memfs) (p : path) (g : memfile -> memfile) : memfs * 
   | Some f => (<[p := g f]> s, Ok tt)
   end.
 
+(** [MemoryFsImpl::ensure_has_parent]: rfind('/') fails only for the root path ""; the parent
+    has to be a directory *)
+Definition has_parent (s : memfs) (p : path) : bool :=
+  match p with
+  | [] => false
+  | _ => match s !! removelast p with
+         | Some f => match f_type f with Dir => true | File => false end
+         | None => false
+         end
+  end.
+
 Definition msec_sem (c : msec) : memfs -> memfs * msec_rep c :=
   match c as c return memfs -> memfs * msec_rep c with
   | MExists p => fun s => (s, Ok (bool_decide (is_Some (s !! p))))
@@ -96,10 +107,12 @@ Definition msec_sem (c : msec) : memfs -> memfs * msec_rep c :=
                   end
       end
   | MInsertDir p => fun s =>
-      match s !! p with
-      | Some f => (s, fail (match f_type f with File => EFileExists | Dir => EDirExists end))
-      | None => (<[p := mkMemFile Dir [] TAuto (Some TAuto) (Some TAuto)]> s, Ok tt)
-      end
+      if has_parent s p then
+        match s !! p with
+        | Some f => (s, fail (match f_type f with File => EFileExists | Dir => EDirExists end))
+        | None => (<[p := mkMemFile Dir [] TAuto (Some TAuto) (Some TAuto)]> s, Ok tt)
+        end
+      else (s, fail EOther)
   | MSetC p t => fun s => mem_update s p (fun f => mkMemFile (f_type f) (f_content f) t (f_modified f) (f_accessed f))
   | MSetM p t => fun s => mem_update s p (fun f => mkMemFile (f_type f) (f_content f) (f_created f) (Some t) (f_accessed f))
   | MSetA p t => fun s => mem_update s p (fun f => mkMemFile (f_type f) (f_content f) (f_created f) (f_modified f) (Some t))
@@ -112,10 +125,12 @@ Definition msec_sem (c : msec) : memfs -> memfs * msec_rep c :=
                   end
       end
   | MInsertFile p => fun s =>
-      match s !! p with
-      | Some (mkMemFile Dir _ _ _ _) => (s, fail EOther)
-      | _ => (<[p := mkMemFile File [] TAuto (Some TAuto) (Some TAuto)]> s, Ok tt)
-      end
+      if has_parent s p then
+        match s !! p with
+        | Some (mkMemFile Dir _ _ _ _) => (s, fail EOther)
+        | _ => (<[p := mkMemFile File [] TAuto (Some TAuto) (Some TAuto)]> s, Ok tt)
+        end
+      else (s, fail EOther)
   | MAppendOpen p => fun s =>
       match s !! p with
       | None => (s, fail ENotFound)
@@ -140,7 +155,13 @@ Definition msec_sem (c : msec) : memfs -> memfs * msec_rep c :=
   | MRemove p => fun s =>
       match s !! p with
       | None => (s, fail ENotFound)
-      | Some _ => (delete p s, Ok tt)
+      | Some f => match f_type f with
+                  | File => (s, fail EOther)
+                  | Dir => match mem_children s p with
+                           | [] => (delete p s, Ok tt)
+                           | _ :: _ => (s, fail EOther)
+                           end
+                  end
       end
   | MPublish p buf => fun s =>
       match s !! p with
@@ -164,29 +185,10 @@ Definition mval (c : fscall) : Type :=
 
 Definition msec_call (c : msec) : mprog (msec_rep c) := Call c Ret.
 
-(** [MemoryFS::ensure_has_parent]: rfind('/') fails only for the root path "" *)
-Definition mem_ensure_has_parent (p : path) : mprog (res unit) :=
-  match p with
-  | [] => Ret (fail EOther)
-  | _ => bind (msec_call (MExists (removelast p))) (fun r =>
-           match r with
-           | Ok true => Ret (Ok tt)
-           | Ok false => Ret (fail EOther)
-           | Err e => Ret (Err e)
-           | Panic => Ret Panic
-           end)
-  end.
-
 Definition mem_call (c : fscall) : mprog (res (mval c)) :=
   match c as c return mprog (res (mval c)) with
   | CReadDir p => msec_call (MScan p)
-  | CCreateDir p =>
-      bind (mem_ensure_has_parent p) (fun r =>
-        match r with
-        | Ok _ => msec_call (MInsertDir p)
-        | Err e => Ret (Err e)
-        | Panic => Ret Panic
-        end)
+  | CCreateDir p => msec_call (MInsertDir p)
   | COpenFile p =>
       bind (msec_call (MSetA p TAuto)) (fun r =>
         match r with
@@ -194,13 +196,7 @@ Definition mem_call (c : fscall) : mprog (res (mval c)) :=
         | Err e => Ret (Err e)
         | Panic => Ret Panic
         end)
-  | CCreateFile p =>
-      bind (mem_ensure_has_parent p) (fun r =>
-        match r with
-        | Ok _ => msec_call (MInsertFile p)
-        | Err e => Ret (Err e)
-        | Panic => Ret Panic
-        end)
+  | CCreateFile p => msec_call (MInsertFile p)
   | CAppendFile p => msec_call (MAppendOpen p)
   | CMetadata p => msec_call (MMeta p)
   | CSetCTime p t => msec_call (MSetC p (TSet t))
@@ -208,14 +204,7 @@ Definition mem_call (c : fscall) : mprog (res (mval c)) :=
   | CSetATime p t => msec_call (MSetA p (TSet t))
   | CExists p => msec_call (MExists p)
   | CRemoveFile p => msec_call (MRemoveFile p)
-  | CRemoveDir p =>
-      bind (msec_call (MScan p)) (fun r =>
-        match r with
-        | Ok [] => msec_call (MRemove p)
-        | Ok (_ :: _) => Ret (fail EOther)
-        | Err e => Ret (Err e)
-        | Panic => Ret Panic
-        end)
+  | CRemoveDir p => msec_call (MRemove p)
   | CCopyFile _ _ => Ret (fail ENotSupported)
   | CMoveFile _ _ => Ret (fail ENotSupported)
   | CMoveDir _ _ => Ret (fail ENotSupported)
